@@ -283,6 +283,9 @@ def mutate(draw, v, root_structure=False, aimed=()):  # noqa: C901, PLR0911, PLR
             elif kind == "intkeys_gap":  # passes a lookup of item 0 and misses a later one
                 gap = draw(st.integers(1, len(items) - 1)) if len(items) > 1 else 0
                 new = {"$": "d", "v": [[i, x] for i, x in enumerate(items) if i != gap]}
+                if new["v"] and draw(st.booleans()):
+                    # ... and an item before the gap is invalid by itself: two errors of different kinds at one container
+                    new["v"][0] = [0, {"$": "opaque"}]
             elif kind == "strkeys":
                 new = {"$": "d", "v": [[str(i), x] for i, x in enumerate(items)]}
             elif kind == "str":
